@@ -49,6 +49,52 @@ ERRORS = "src/sqlfluff/core/errors.py"
 DEDUPE = "LintedFile.deduplicate_in_source_space"
 
 
+_TEMPLATED_COORDS = ("working_line_no", "working_line_pos", "templated_slice", "templated_position", "working_loc")
+_R33F_SCOPES = ("src/sqlfluff/rules/", "src/sqlfluff/utils/reflow/", "src/sqlfluff/core/rules/")
+
+
+def _r33f_reads(cfg, e: ast.AST, at, depth: int = 0, seen=None):
+    """Templated-space coordinate reads that can flow into expression ``e`` (through locals, all origins)."""
+    seen = seen if seen is not None else set()
+    out = []
+    for n in ast.walk(e):
+        if isinstance(n, ast.Attribute) and n.attr in _TEMPLATED_COORDS:
+            out.append(n)
+        elif isinstance(n, ast.Name) and isinstance(n.ctx, ast.Load) and depth < 5:
+            for o in origins(cfg, n, at):
+                if o.kind in ("expr", "for") and isinstance(getattr(o, "expr", None), ast.AST) and id(o.expr) not in seen:
+                    seen.add(id(o.expr))
+                    out += _r33f_reads(cfg, o.expr, o.stmt if o.stmt is not None else at, depth + 1, seen)
+    return out
+
+
+def _r33f(chk, repo) -> None:
+    n = 0
+    for m in repo.iter_modules():
+        if not m.relpath.startswith(_R33F_SCOPES):
+            continue
+        for q, f in m.functions():
+            cs = [c for c in calls_in(f) if last_attr(c) in ("LintResult", "SQLLintError") and (kwarg(c, "description") is not None)]
+            if not cs:
+                continue
+            cfg = cfg_of(f)
+            for c in cs:
+                d = kwarg(c, "description")
+                if isinstance(d, ast.Constant):
+                    continue
+                n += 1
+                st = cfg.stmt_of(c)
+                reads = _r33f_reads(cfg, d, st) if st is not None else []
+                chk.require(
+                    not reads, "R33f", c,
+                    f"{q} writes a templated-file coordinate (`{short(reads[0], 60) if reads else ''}`) into a violation description: the description is part of the source signature, so the same "
+                    "violation raised once per loop iteration / rendering variant at one source position carries a different text each time and is no longer collapsed to one report (and the line quoted is not a line of the user's file)",
+                    detail=f"{q}: description reads no templated-space coordinate",
+                )
+    chk.count("R33f.computed_descriptions", n)
+    chk.floor("R33f.computed_descriptions", 20)
+
+
 def run(chk) -> None:
     repo = chk.repo
     chk.rule("R33a", "every LintedFile is built from deduplicate_in_source_space(...), which keeps a violation only if its source signature is new and returns the kept ones sorted by source (line, position); records are serialised sorted by (line, position, code)")
@@ -61,6 +107,8 @@ def run(chk) -> None:
     _r33e(chk, repo)
     chk.rule("R33d", "the human-readable CLI output prints a file's violations in the order of a sort on (line_no, line_pos) made at the print site: get_violations() appends the unused-noqa warnings after the sorted list, so the list handed over is not in source order by itself")
     _r33d(chk, repo)
+    chk.rule("R33f", "no violation description built in rules/, utils/reflow/ or core/rules/ (description= of LintResult / SQLLintError, read through locals) embeds a templated-file coordinate (working_line_no / working_line_pos / templated_slice / templated_position): descriptions are part of the source signature the dedupe keys on")
+    _r33f(chk, repo)
 
 
 FORMATTERS = "src/sqlfluff/cli/formatters.py"
@@ -758,6 +806,24 @@ _TRIPLE = (
 _SIG_RETURN = "        return (self.check_tuple(), self.description, fix_raws, tuple(_source_fixes))\n"
 
 VARIANTS = [
+    Variant(
+        "al08-quotes-the-templated-line-through-a-local", "src/sqlfluff/rules/aliasing/AL08.py",
+        "                assert previous.pos_marker\n",
+        "                assert previous.pos_marker\n                prev_line = previous.pos_marker.working_line_no\n",
+        "QUIET", None, "the templated line is read but not written into the description",
+    ),
+    Variant(
+        "al08-describes-with-the-templated-line-local", "src/sqlfluff/rules/aliasing/AL08.py",
+        "                assert previous.pos_marker\n                violations.append(\n                    LintResult(\n                        anchor=column_alias,\n                        description=(\n                            \"Reuse of column alias \"\n                            f\"{column_alias.raw!r} from line \"\n                            f\"{previous.pos_marker.line_no}.\"\n",
+        "                assert previous.pos_marker\n                prev_line = previous.pos_marker.working_line_no\n                violations.append(\n                    LintResult(\n                        anchor=column_alias,\n                        description=(\n                            \"Reuse of column alias \"\n                            f\"{column_alias.raw!r} from line \"\n                            f\"{prev_line}.\"\n",
+        "R33f", "Rule_AL08._eval", "seeded C33-7 through a local: one report per loop iteration",
+    ),
+    Variant(
+        "crash-report-quotes-the-templated-line", "src/sqlfluff/core/rules/base.py",
+        "                exception_line, _ = context.segment.pos_marker.source_position()\n",
+        "                exception_line = context.segment.pos_marker.working_line_no\n",
+        "R33f", "BaseRule.crawl", "seeded C33-8",
+    ),
     Variant(
         "cli-output-relies-on-the-order-it-is-given", FORMATTERS,
         "            s = sorted(violations, key=lambda v: (v.line_no, v.line_pos))\n            for violation in s:\n",
